@@ -347,6 +347,7 @@ type ScenCfg struct {
 	NoRest     bool // do not emit plain tokens that would become remaining arguments
 	MaxOccPer  int
 	PosTextFn  func(r *Rand, a *PosArg) string
+	PSiblingWord  int // % of plain tokens that equal the name of a command which is NOT a sub-command of the current one
 	PCmdWordAsPos int // % of positional tokens that equal a sub-command name of the current command
 	SkipReq    bool // never mention required options spontaneously (the caller supplies a chosen subset)
 	PUnknown   int  // % of steps that emit an unknown option token (only under IgnoreUnknown: passed through)
@@ -406,6 +407,17 @@ var plainTokens = []string{"file", "x", "-", "a b", "é世", "0", "=", "k:v", "p
 
 func (w *walker) plainToken() string {
 	r := w.r
+	if w.cfg.PSiblingWord > 0 && len(w.d.Cmds) > 1 && r.Chance(w.cfg.PSiblingWord, 100) {
+		// the current command's own name, a sibling's or an ancestor's: ordinary words in this context
+		cm := w.d.Cmds[1+r.Intn(len(w.d.Cmds)-1)]
+		tok := cm.Name
+		if len(cm.Aliases) > 0 && r.Bool() {
+			tok = cm.Aliases[r.Intn(len(cm.Aliases))]
+		}
+		if w.scope.Cmds[tok] == nil {
+			return tok
+		}
+	}
 	if r.Chance(2, 3) {
 		return fmt.Sprintf("t%d", r.Intn(1000))
 	}
